@@ -918,6 +918,68 @@ fn cmd_run(world: &World, args: &Args) -> i32 {
         batch.capped |= sb.capped;
         batch.violation = v;
     }
+    // thorough tier: exhaustive 32-bit sweep of the canonical encode_to / decode pair (lean loop), all 66
+    // 32-bit layouts x 2^32 patterns, split into 4096 chunks per layout over the workers
+    let mut sweep32 = json!(null);
+    if args.tier == Tier::Thorough && batch.violation.is_none() && !args.canary {
+        let t1 = Instant::now();
+        let lays: Vec<u16> = world.table.iter().enumerate().filter(|(_, o)| o.w == 32).map(|(i, _)| i as u16).collect();
+        let chunks_per = 4096u64;
+        let total_chunks = lays.len() as u64 * chunks_per;
+        let next = AtomicU64::new(0);
+        let bad = std::sync::Mutex::new(None::<(u16, u32)>);
+        let stop = AtomicBool::new(false);
+        std::thread::scope(|sc| {
+            for _ in 0..args.workers {
+                sc.spawn(|| loop {
+                    let c = next.fetch_add(1, Ordering::Relaxed);
+                    if c >= total_chunks || stop.load(Ordering::Relaxed) {
+                        break;
+                    }
+                    let l = lays[(c / chunks_per) as usize];
+                    let k = (c % chunks_per) as u32;
+                    let (lo, hi) = (k << 20, (k << 20) | 0xF_FFFF);
+                    let r = std::panic::catch_unwind(|| (world.table[l as usize].sweep32)(lo, hi));
+                    let hit = match r {
+                        Ok(None) => None,
+                        Ok(Some(v)) => Some(v),
+                        Err(_) => Some(lo), // unwound somewhere in this chunk; the re-execution below pins it
+                    };
+                    if let Some(v) = hit {
+                        let mut g = bad.lock().unwrap();
+                        if g.map(|(bl, bv)| (l, v) < (bl, bv)).unwrap_or(true) {
+                            *g = Some((l, v));
+                        }
+                        stop.store(true, Ordering::Relaxed);
+                    }
+                });
+            }
+        });
+        let done = next.load(Ordering::Relaxed).min(total_chunks);
+        let hit = *bad.lock().unwrap();
+        sweep32 = json!({"layouts": lays.len(), "bit_patterns_per_layout": "all 2^32", "patterns_checked": done * (1u64 << 20),
+            "complete": hit.is_none() && done == total_chunks, "wall_s": t1.elapsed().as_secs_f64(),
+            "what": "lean loop, no event log: encode_to writes exactly the 4 LE bytes; decode of them returns the bits and consumes all 4; for one pattern in 256 the 3-byte prefix fails"});
+        if let Some((l, v)) = hit {
+            // re-execute as an ordinary history so that the normal oracles, minimiser and replay apply
+            let t = Trace { seed: 0, run: v as u64, input: seams::InputMode::plain(), sampled_faults: vec![], serde: vec![],
+                records: vec![trace::Record { w_lay: l, r_lay: l, shape: Shape::Bare, vals: vec![v as u128], splits: vec![], writer: trace::Writer::EncodeTo, reader: trace::Reader::Decode }] };
+            let mut found = None;
+            for f in [Fault::None, Fault::TruncateAt(3), Fault::TruncateAt(0)] {
+                if let (Some(vi), _, _) = shrink::exec_single(world, &t, &f, false) {
+                    found = Some((f, vi));
+                    break;
+                }
+            }
+            match found {
+                Some((f, vi)) => batch.violation = Some((v as u64, t, f, vi)),
+                None => {
+                    eprintln!("harness error: the 32-bit sweep flagged pattern {:#x} of {} but the ordinary oracles accept it", v, world.table[l as usize].name);
+                    return 2;
+                }
+            }
+        }
+    }
     let st = &batch.stats;
     let wall = t0.elapsed().as_secs_f64();
 
@@ -1143,6 +1205,7 @@ fn cmd_run(world: &World, args: &Args) -> i32 {
             "samples": samples,
             "exhaustive": false,
             "exhaustive_value_sweep": sweep,
+            "exhaustive_32bit_sweep": sweep32,
             "histories": st.histories,
             "distinct_histories": distinct_histories,
             "histories_requested": runs,
